@@ -89,6 +89,11 @@ def programs():
                                           "overloads": [[{"tuple": ["x", 1]}, {"args": [["b", O("B", dk="const", dv="b")]]}], [{"tuple": ["y", 0]}, {"expr": O("C", dk="const", dv="c")}],
                                                         [[{"tuple": ["z", 1]}, {"tuple": ["z", 0]}], {"args": []}]]},
                                       d2={"args": [], "abstract": True, "dispatch": "D", "overloads": [[{"tuple": ["x", "y"]}, {"args": [["b", O("B", dk="const", dv="pair")]]}]]}))
+    # a dataset class whose members report a list AND an index into it / a section AND a member of it (privately named
+    # member, inherited member): instantiation succeeds wherever validate() and keys() do
+    add("dataset-class-nested-reported-keys", prog({"k": "tuple", "items": [
+        {"k": "dc", "n": 61, "members": [["m0", {"k": "tmpl", "text": "{L.0}", "params": []}], ["m1", O("L", dk="const", dv=["dflt"])], ["_m2", O("S", dk="const", dv={})], ["m3", O("S.X", dk="const", dv=0)]], "base": 2, "base_decorated": True},
+        DS(1)]}, d1={"args": [["c", {"k": "dc", "n": 62, "members": [["m0", O("L.1", dk="const", dv=None)], ["_m1", O("L", dk="const", dv=[])]]}]]}))
     # a key that is present with a null value is PRESENT: the default (and what the default reads) plays no part
     add("null-valued-option", prog({"k": "tuple", "items": [DS(1), {"k": "cached", "spec": O("C", dk="tmpl", dv="{S.X} t")}]},
                                    d1={"args": [["a", O("A", dk="spec", dv=O("B"))], ["c", O("E", dk="spec", dv=DS(2))]]},
